@@ -883,6 +883,47 @@ def rule_r26_body(body, counts):
     return body
 
 
+def rule_r28_body(body, counts):
+    """R28: statement-position `E[..N].iter().for_each(|x| { B });` -> `let n__ = N; let mut i__: usize = 0; while i__ < n__ { let x = &E[i__]; B i__ += 1; }`
+    (a prefix slice walked by index; both forms panic exactly when N > E.len())."""
+    pat = re.compile(r'(?P<ind>^[ \t]*)(?P<e>[A-Za-z_][\w\.]*?)\[\.\.(?P<n>[^\]\n]+)\]\.iter\(\)\.for_each\(\|(?P<x>\w+)\|\s*\{', re.M)
+    while True:
+        m = pat.search(body)
+        if not m:
+            break
+        open_idx = m.end() - 1
+        close_idx = _match_brace(body, open_idx)
+        tail = body[close_idx + 1:]
+        mt = re.match(r'\s*\)\s*;', tail)
+        if not mt:
+            raise ExtractError('R28: for_each closure not in statement position')
+        inner = body[open_idx + 1:close_idx]
+        if re.search(r'\b(return|break|continue)\b', re.sub(r'//.*', '', inner)):
+            raise ExtractError('R28: closure body contains return/break/continue')
+        ind = m.group('ind')
+        body = (body[:m.start()] + ind + 'let n__ = %s; let mut i__: usize = 0; // [R28]\n' % m.group('n').strip()
+                + ind + 'while i__ < n__ {\n' + ind + '    let %s = &%s[i__];' % (m.group('x'), m.group('e'))
+                + inner.rstrip() + '\n' + ind + '    i__ += 1;\n' + ind + '}' + tail[mt.end():])
+        counts['R28'] = counts.get('R28', 0) + 1
+    return body
+
+
+def rule_r27_body(body, counts):
+    """R27: `E.find(|c| c == 'a' || c == 'b' ..).is_some()` -> `verif_str_has_any(E, &['a', 'b', ..])`;  `E.contains(char::is_whitespace)` -> `verif_str_has_whitespace(E)`."""
+    def repl(m):
+        chars = re.findall(r"%s == ('(?:\\.|[^'])')" % re.escape(m.group(2)), m.group(3))
+        parts = [x.strip() for x in m.group(3).split('||')]
+        if len(chars) != len(parts):
+            return m.group(0)
+        counts['R27'] = counts.get('R27', 0) + 1
+        return 'verif_str_has_any(%s, &[%s])' % (m.group(1), ', '.join(chars))
+    body = re.sub(r"\b([A-Za-z_]\w*)\.find\(\|(\w+)\| ([^)]*?)\)\.is_some\(\)", repl, body)
+    body, n = re.subn(r"\b([A-Za-z_]\w*)\.contains\(char::is_whitespace\)", r'verif_str_has_whitespace(\1)', body)
+    if n:
+        counts['R27'] = counts.get('R27', 0) + n
+    return body
+
+
 def rule_r23_body(body, counts):
     """R23: `format!("p0{}p1{}p2", a, b)` -> `verif_fmt2("p0", &a, "p1", &b, "p2")` (only plain `{}` placeholders, at most 3, literal
     format string without escaped braces); the stub's result is the concatenation of the literal pieces and the Display text of the
@@ -939,6 +980,8 @@ RULES_BODY['R23'] = rule_r23_body
 RULES_BODY['R22'] = rule_r22_body
 RULES_BODY['R25'] = rule_r25_body
 RULES_BODY['R26'] = rule_r26_body
+RULES_BODY['R27'] = rule_r27_body
+RULES_BODY['R28'] = rule_r28_body
 
 
 def find_line(lines, regex, k, what):
